@@ -701,3 +701,80 @@ package participle
 //@   requires t.scanner != nil
 //@   modifies t.err
 //@   assume call (*scanner.Scanner).TokenText#1: t.err == nil ==> uf("scan_ok", "Bool", typ)
+
+// visit.go: the generic grammar walker never meets a nil or unknown node in a well-formed grammar.
+//@ lemma wfKinds(n node)
+//@   axiom
+//@   requires wf(n)
+//@   ensures n != nil && objof(n) != 0 && (typeis(n, *disjunction) || typeis(n, *strct) || typeis(n, *custom) || typeis(n, *union) || typeis(n, *sequence) || typeis(n, *parseable)
+//@        || typeis(n, *capture) || typeis(n, *reference) || typeis(n, *negation) || typeis(n, *literal) || typeis(n, *group) || typeis(n, *lookaheadGroup))
+//@ func visit [C19]
+//@   requires wf(n) && visitor != nil
+//@   use wfKinds(n) at entry
+//@ func visit$1 [C19]
+//@   requires wf(n) && visitor != nil
+//@   use wfKinds(n) at entry
+//@   use wfDisjunction(n.(*disjunction)) at entry
+//@   use wfStrct(n.(*strct)) at entry
+//@   use wfUnion(n.(*union)) at entry
+//@   use wfDisjunction(&n.(*union).disjunction) at entry
+//@   use wfSequence(n.(*sequence)) at entry
+//@   use wfCapture(n.(*capture)) at entry
+//@   use wfNegation(n.(*negation)) at entry
+//@   use wfGroup(n.(*group)) at entry
+//@   use wfLookahead(n.(*lookaheadGroup)) at entry
+//@   loop 1 invariant -1 <= rangeindex && rangeindex < len(n.nodes)
+//@   loop 1 decreases len(n.nodes) - rangeindex
+//@   loop 2 invariant -1 <= rangeindex && rangeindex < len(n.disjunction.nodes)
+//@   loop 2 decreases len(n.disjunction.nodes) - rangeindex
+
+// validate.go (safety only, C19): the left-recursion analysis never dereferences a nil node of a well-formed
+// grammar. Its verdict is checked by the bounded stand-in of C08.
+//@ func isLeftRecursive$1 [C19]
+//@   requires (n == nil || wf(n)) && leftmost != nil && root != nil && seen != nil
+//@   use wfKinds(n) at entry
+//@   use wfDisjunction(n.(*disjunction)) at entry
+//@   use wfStrct(n.(*strct)) at entry
+//@   use wfUnion(n.(*union)) at entry
+//@   use wfDisjunction(&n.(*union).disjunction) at entry
+//@   use wfSequence(n.(*sequence)) at entry
+//@   use wfCapture(n.(*capture)) at entry
+//@   use wfNegation(n.(*negation)) at entry
+//@   use wfGroup(n.(*group)) at entry
+//@   use wfLookahead(n.(*lookaheadGroup)) at entry
+//@   modifies mapof(seen)
+//@   loop 1 invariant s != nil ==> wf(iface(s))
+//@   loop 1 nonterminating-ok
+//@   use wfSequence(s) at loop 1
+//@   loop 2 invariant -1 <= rangeindex && rangeindex < len(n.nodes)
+//@   loop 2 decreases len(n.nodes) - rangeindex
+//@   loop 3 invariant -1 <= rangeindex && rangeindex < len(n.disjunction.nodes)
+//@   loop 3 decreases len(n.disjunction.nodes) - rangeindex
+
+//@ func nullableNodes$1 [C19]
+//@   requires (n == nil || wf(n)) && nullable != nil
+//@   pure
+//@   use wfKinds(n) at entry
+//@   use wfDisjunction(n.(*disjunction)) at entry
+//@   use wfStrct(n.(*strct)) at entry
+//@   use wfUnion(n.(*union)) at entry
+//@   use wfDisjunction(&n.(*union).disjunction) at entry
+//@   use wfSequence(n.(*sequence)) at entry
+//@   use wfCapture(n.(*capture)) at entry
+//@   use wfGroup(n.(*group)) at entry
+//@   loop 1 invariant s != nil ==> wf(iface(s))
+//@   loop 1 nonterminating-ok
+//@   use wfSequence(s) at loop 1
+//@   loop 2 invariant -1 <= rangeindex && rangeindex < len(n.nodes)
+//@   loop 2 decreases len(n.nodes) - rangeindex
+//@   loop 3 invariant -1 <= rangeindex && rangeindex < len(n.disjunction.nodes)
+//@   loop 3 decreases len(n.disjunction.nodes) - rangeindex
+
+//@ func isLeftRecursive [C19]
+//@   requires root != nil && wf(iface(root))
+//@   use wfStrct(root) at entry
+
+//@ func nullableNodes [C19]
+//@   requires root != nil && wf(iface(root))
+//@   loop 1 invariant nullable != nil && fresh(nullable)
+//@   loop 1 nonterminating-ok
